@@ -660,9 +660,13 @@ def check_C06(replay=None):
 
     def comp(c):
         dest = c["path"][:-4] + ".lc3"
+        # what is at the destination beforehand must not matter: nothing, a shorter file, a much longer one
+        pre = sum(c["path"].encode()) % 3
+        if pre:
+            open(dest, "wb").write(b"\xaa" * (3 if pre == 1 else 300000))
         code, out, err = vlib.run_lace(["compile"] + _flag(c["stack"]) + [c["path"], dest])
-        b = list(open(dest, "rb").read()) if code == 0 and os.path.exists(dest) else []
-        return {"ev": "compile", "tag": c["tag"], "ast": c["ast"], "stack": c["stack"], "code": code, "bytes": b, "src": c["src"]}
+        b = list(open(dest, "rb").read(200000)) if code == 0 and os.path.exists(dest) else []
+        return {"ev": "compile", "tag": c["tag"] + ":" + ("absent", "short", "long")[pre], "ast": c["ast"], "stack": c["stack"], "code": code, "bytes": b, "src": c["src"]}
     events += parallel(comp, man, 8)
     # (2) run from source vs from object file
     d2, man2 = _files(chk, "exec", 150 if thorough else 24)
@@ -775,12 +779,15 @@ def _watch_smoke(chk):
         return buf
 
     put("halt\n")
-    phases = [("far", "halt\nld r0 far\n.blkw #300\nfar halt\n", False, []),
-              ("ok", "halt\nadd r0 r0 #1\n", True, []),
-              ("undefined", "halt\nld r0 nowhere\n", False, []),
-              ("ok2", "lea r0 m\nputs\nhalt\nm .stringz \"x\"\n", True, [])]
+    # every text defines labels the NEXT text defines again: state left behind by a re-check (failed or not) would show
+    phases = [("far", "m halt\nld r0 far\n.blkw #300\nfar halt\n", False, []),
+              ("ok", "far halt\nm add r0 r0 #1\n", True, []),
+              ("undefined", "far halt\nm ld r0 nowhere\n", False, []),
+              ("ok2", "far lea r0 m\nputs\nhalt\nm .stringz \"x\"\n", True, []),
+              ("lexerr", "far halt\nm .strngz \"x\"\n", False, []),
+              ("ok3", "far halt\nm halt\n", True, [])]
     events = []
-    for flags, extra in (([], [("stack-off", "halt\npush r1\n", False, [])]), (["-f", "stack"], [("stack-on", "halt\npush r1\n", True, [])])):
+    for flags, extra in (([], [("stack-off", "far halt\npush r1\n", False, []), ("ok4", "far halt\n", True, [])]), (["-f", "stack"], [("stack-on", "far halt\nm push r1\n", True, []), ("ok4", "m halt\n", True, [])])):
         put("halt\n")
         try:
             p = _sp.Popen([vlib.LACE_BIN, "watch"] + flags + [f], stdout=_sp.PIPE, stderr=_sp.STDOUT, cwd=d)
@@ -865,6 +872,8 @@ def check_C08(replay=None):
     chk.extra["strace"] = use_strace
     old = bytes(range(251)) * 20          # longer than any object the cases produce
     jobs = [(c, dk) for c in man for dk in ("absent", "file", "longer", "devfull", "nodir")]
+    # the shape of the destination's NAME and the state of stdout must not matter either (every 3rd source each)
+    jobs += [(c, dk) for i, c in enumerate(man) for dk in ("nonutf8", "longutf8", "absent-outfull", "file-outfull") if i % 3 == 0]
 
     def atomic(job):
         c, dk = job
@@ -887,23 +896,43 @@ def check_C08(replay=None):
             open(dest, "wb").write(good + b"\xf0\x26\x12\x34\xf0\x25")
         elif dk == "devfull":
             dest = "/dev/full"
+        elif dk == "nonutf8":
+            dest = os.fsencode(base) + b"\xff\xfe.lc3"          # a file name that is not valid UTF-8
+        elif dk == "longutf8":
+            dest = base + "\u00e9" * 45 + ".lc3"                 # long, multi-byte characters all along
+        elif dk == "absent-outfull":
+            dest = base + ".lc3"
+        elif dk == "file-outfull":
+            dest = base + ".lc3"
+            open(dest, "wb").write(old)
         else:
             dest = os.path.join(base + "_missing_dir", "x.lc3")
-        before = list(open(dest, "rb").read()) if dk in ("absent", "file", "longer") and os.path.exists(dest) else [-1]
+        regular = dk not in ("devfull", "nodir")
+        before = list(open(dest, "rb").read()) if regular and os.path.exists(dest) else [-1]
         log = base + ".strace"
         argv = ["compile"] + _flag(c["stack"]) + [c["path"], dest]
         opens = -1
-        if use_strace:
-            r = _sp.run(["strace", "-f", "-e", "trace=openat,creat,open", "-o", log, vlib.LACE_BIN] + argv, stdout=_sp.PIPE, stderr=_sp.PIPE, cwd=WORK, timeout=60)
-            code = r.returncode
-            opens = 0
-            for line in open(log, errors="replace"):
-                if dest in line and ("O_CREAT" in line or "O_TRUNC" in line or "creat(" in line):
-                    opens += 1
-            os.remove(log)
-        else:
-            code = vlib.run_lace(argv)[0]
-        after = list(open(dest, "rb").read()) if dk in ("absent", "file", "longer", "nodir") and os.path.exists(dest) else [-1]
+        sink = open("/dev/full", "wb") if dk.endswith("-outfull") else _sp.PIPE
+        marker = os.path.basename(base) + "."          # every spelling of the destination starts with it; the source's name does not
+        for attempt in (60, 600):
+            try:
+                if use_strace:
+                    r = _sp.run(["strace", "-f", "-e", "trace=openat,creat,open", "-o", log, vlib.LACE_BIN] + argv, stdout=sink, stderr=_sp.PIPE, cwd=WORK, timeout=attempt)
+                    code = r.returncode
+                    opens = 0
+                    for line in open(log, errors="replace"):
+                        if marker in line and ("O_CREAT" in line or "O_TRUNC" in line or "creat(" in line):
+                            opens += 1
+                    os.remove(log)
+                else:
+                    code = _sp.run([vlib.LACE_BIN] + argv, stdout=sink, stderr=_sp.PIPE, cwd=WORK, timeout=attempt).returncode
+                break
+            except _sp.TimeoutExpired:
+                if attempt == 600:
+                    raise vlib.ToolError("lace compile did not finish within 600 s")
+        if sink is not _sp.PIPE:
+            sink.close()
+        after = list(open(dest, "rb").read()) if dk != "devfull" and os.path.exists(dest) else [-1]
         if dk == "devfull":
             after = before = [-2]
         return {"ev": "atomic", "tag": c["tag"] + ":" + dk, "ast": c["ast"], "stack": c["stack"], "dest": dk, "code": code,
